@@ -403,7 +403,8 @@ def rule_loc(ctx):
 
         def tol_ok(c, _env=env, _eff=effective):
             # the tol= argument of a locate_one call evaluates to the effective tolerance of the scenario
-            t_ = T.kw(c, 'tol', T.CONST_NONE)
+            # (by keyword or by position: bound against locate_one's own signature)
+            t_ = bind_call_args(c, ctx.fn('dimarray.core.indexing.locate_one')).get('tol') or T.CONST_NONE
             v_ = val_eval(t_, _env)
             return v_ is not UNKNOWN and v_ == _eff and type(v_) is type(_eff)
         ev = run(ctx, fi, bind={'mode': const('raise'), 'issorted': const(False)}, oracle=oracle)
@@ -549,6 +550,24 @@ def getitem_oracle(bc):
 
 def rule_ortho(ctx):
     ctx.rule('R5', 'orthogonal indexing is the default and uses the ortho pair', 3)
+    # the structural reading of _getitem on trial: when it does not recognise how the worker pair is chosen and called, the dispatch scenarios of _getitem decide
+    # (the class-level _broadcast flags are another construct: what is said about them stays)
+    from ..report import on_trial
+    on_trial(ctx, _getitem_structural, [BASES + 'AbstractDimArray._getitem'], ('R5',), '_getitem')
+    fi = ctx.fn('dimarray.core.dimarraycls.DimArray._getvalues_ortho')
+    ev = run(ctx, fi)
+    for p in ev.paths:
+        v = p.value
+        ok = p.kind == 'return' and v[0] == 'sub' and v[1] in (('attr', SELF, 'values'), ('attr', SELF, '_values')) \
+            and v[2][0] == 'call' and T.call_name(v[2]) == 'orthogonal_indexer' \
+            and v[2][2] == (P_('indices'), ('attr', SELF, 'shape'))
+        if not ok:
+            ctx.violated('R5', fi, 'return ' + T.show(v), 'values must be indexed with orthogonal_indexer(indices, self.shape)', node=p.node)
+        else:
+            ctx.holds('R5', '_getvalues_ortho: values[orthogonal_indexer(indices, shape)]')
+
+
+def _getitem_structural(ctx):
     P = ctx.P
     fi = ctx.fn(BASES + 'AbstractDimArray._getitem')
     gi = ctx.fn(BASES + 'AbstractHasAxes._get_indices')
@@ -599,17 +618,6 @@ def rule_ortho(ctx):
                 ok = False
         if ok:
             ctx.holds('R5', '%s: default ortho pair on %d paths' % (cq.rsplit('.', 1)[-1], len(ev.paths)))
-    fi = ctx.fn('dimarray.core.dimarraycls.DimArray._getvalues_ortho')
-    ev = run(ctx, fi)
-    for p in ev.paths:
-        v = p.value
-        ok = p.kind == 'return' and v[0] == 'sub' and v[1] in (('attr', SELF, 'values'), ('attr', SELF, '_values')) \
-            and v[2][0] == 'call' and T.call_name(v[2]) == 'orthogonal_indexer' \
-            and v[2][2] == (P_('indices'), ('attr', SELF, 'shape'))
-        if not ok:
-            ctx.violated('R5', fi, 'return ' + T.show(v), 'values must be indexed with orthogonal_indexer(indices, self.shape)', node=p.node)
-        else:
-            ctx.holds('R5', '_getvalues_ortho: values[orthogonal_indexer(indices, shape)]')
 
 
 # ----------------------------------------------------------------------------- R6
@@ -716,7 +724,12 @@ def rule_bookkeeping(ctx):
         ctx.holds('R6', '_get_indices: int keys mapped through dims[k]')
     # keepdims
     ev = run(ctx, fi, bind={'indexing': const('position'), 'keepdims': const(True)})
-    # _getaxes_ortho
+    # _getaxes_ortho: the structural reading on trial, the scenario table of the function decides when it does not recognise the code
+    from ..report import on_trial
+    on_trial(ctx, _getaxes_ortho_structural, [BASES + 'AbstractHasAxes._getaxes_ortho'], ('R6',), '_getaxes_ortho')
+
+
+def _getaxes_ortho_structural(ctx):
     fi = ctx.fn(BASES + 'AbstractHasAxes._getaxes_ortho')
     ev = run(ctx, fi)
     TUP = P_('idx_tuple')
